@@ -517,7 +517,7 @@ pub struct ProveOut<G: AffineRepr> {
     pub build_err: Option<R1CSError>,
 }
 
-/// Run the real prover on a program (monitored).
+/// Run the real prover on a program (monitored), external RNG = recorded ChaCha(seed).
 pub fn prove_program<G: AffineRepr>(
     prog: &Program,
     faults: &[Fault],
@@ -525,9 +525,20 @@ pub fn prove_program<G: AffineRepr>(
     bp: &BulletproofGens<G>,
     rng_seed: u64,
 ) -> ProveOut<G> {
+    let mut ext = RecordingRng::new(ChaChaRng::seed_from_u64(rng_seed));
+    prove_program_rng::<G, _>(prog, faults, pc, bp, &mut ext)
+}
+
+/// Run the real prover on a program (monitored) with a caller-supplied recorded external RNG.
+pub fn prove_program_rng<G: AffineRepr, X: rand_core::RngCore>(
+    prog: &Program,
+    faults: &[Fault],
+    pc: &PedersenGens<G>,
+    bp: &BulletproofGens<G>,
+    ext: &mut RecordingRng<X>,
+) -> ProveOut<G> {
     let st = Rc::new(RefCell::new(St::<G::ScalarField>::new(faults)));
     let mut vs: Vec<G> = vec![];
-    let mut ext = RecordingRng::new(ChaChaRng::seed_from_u64(rng_seed));
     let mut probe = None;
     let mut build_err = None;
     let (proof, log) = mon::record(|| {
@@ -552,7 +563,7 @@ pub fn prove_program<G: AffineRepr>(
                 var
             };
             match drive(&mut p, prog, &st, &mut commit) {
-                Ok(()) => p.prove_and_return_transcript(&mut ext, bp).map(|(pf, _t)| pf),
+                Ok(()) => p.prove_and_return_transcript(ext, bp).map(|(pf, _t)| pf),
                 Err(e) => {
                     build_err = Some(e.clone());
                     Err(e)
@@ -568,7 +579,7 @@ pub fn prove_program<G: AffineRepr>(
     });
     let mut st = Rc::try_unwrap(st).ok().expect("state still shared").into_inner();
     st.model.phase_switch();
-    ProveOut { proof, vs, st, log, ext: ext.log, probe, build_err }
+    ProveOut { proof, vs, st, log, ext: ext.log.clone(), probe, build_err }
 }
 
 pub struct VerifyOut<G: AffineRepr> {
